@@ -254,7 +254,8 @@ static void handler(vh::Reader& r, vh::Out& o)
 	else if(op == "vshhist")
 	{
 		// vshhist nd th1 ph1 .. k (kind l m di)*k: a history of harmonic requests over nd directions in ONE process (angles may be NaN / +-inf /
-		// -0.0 / subnormal / huge); kind 0 = Vector_Spherical_Harmonics_Y, 1 = Vector_Spherical_Harmonics_Psi, 2 = Spherical_Harmonics; every answer printed
+		// -0.0 / subnormal / huge); kind 0 = Vector_Spherical_Harmonics_Y, 1 = Vector_Spherical_Harmonics_Psi, 2 = Spherical_Harmonics; every answer printed;
+		// degrees beyond 12 (up to thousands) are allowed: they are outside the property's judged range but legal requests of the same process
 		long nd = r.integer();
 		std::vector<double> th(nd), ph(nd);
 		for(long i = 0; i < nd; i++)
@@ -268,14 +269,90 @@ static void handler(vh::Reader& r, vh::Out& o)
 			long kind = r.integer();
 			int l = r.integer(), m = r.integer();
 			long di = r.integer();
-			if(kind == 0)
-				for(auto& z : Vector_Spherical_Harmonics_Y(l, m, th[di], ph[di]))
-					putc(o, z);
-			else if(kind == 1)
-				for(auto& z : Vector_Spherical_Harmonics_Psi(l, m, th[di], ph[di]))
-					putc(o, z);
-			else
-				putc(o, Spherical_Harmonics(l, m, th[di], ph[di]));
+			// a request may be abandoned by an exception coming out of the library (the scalar-harmonic back end reports an overflow at very high
+			// orders by throwing); the caller catches it, as a user program may, records THROW for that request and goes on in the same process
+			try
+			{
+				if(kind == 0)
+				{
+					std::vector<cd> v = Vector_Spherical_Harmonics_Y(l, m, th[di], ph[di]);
+					for(auto& z : v)
+						putc(o, z);
+				}
+				else if(kind == 1)
+				{
+					std::vector<cd> v = Vector_Spherical_Harmonics_Psi(l, m, th[di], ph[di]);
+					for(auto& z : v)
+						putc(o, z);
+				}
+				else
+					putc(o, Spherical_Harmonics(l, m, th[di], ph[di]));
+			}
+			catch(const std::exception& e)
+			{
+				o.w("THROW");
+			}
+		}
+	}
+	else if(op == "vshx")
+	{
+		// vshx nd th1 ph1 .. k (kind l m di)*k: like vshhist, but before each request the six neighbouring scalar harmonics the summation loops read are
+		// evaluated and printed (two numbers, or T when the evaluation throws, S when the loops skip it: |m_hat| > l_hat), then "=" and the answer (numbers
+		// or THROW): the model is run on the same history with the back end's answers (and throws) as its function argument
+		long nd = r.integer();
+		std::vector<double> th(nd), ph(nd);
+		for(long i = 0; i < nd; i++)
+		{
+			th[i] = r.num();
+			ph[i] = r.num();
+		}
+		long k = r.integer();
+		for(long j = 0; j < k; j++)
+		{
+			long kind = r.integer();
+			int l = r.integer(), m = r.integer();
+			long di = r.integer();
+			for(int lh = l - 1; lh < l + 2; lh += 2)
+				for(int mh = m - 1; mh < m + 2; mh++)
+				{
+					if(std::abs(mh) > lh)
+					{
+						o.w("S");
+						continue;
+					}
+					try
+					{
+						cd y = Spherical_Harmonics(lh, mh, th[di], ph[di]);
+						putc(o, y);
+					}
+					catch(const std::exception& e)
+					{
+						o.w("T");
+					}
+				}
+			o.w("=");
+			try
+			{
+				if(kind == 0)
+				{
+					std::vector<cd> v = Vector_Spherical_Harmonics_Y(l, m, th[di], ph[di]);
+					for(auto& z : v)
+						putc(o, z);
+				}
+				else if(kind == 1)
+				{
+					std::vector<cd> v = Vector_Spherical_Harmonics_Psi(l, m, th[di], ph[di]);
+					for(auto& z : v)
+						putc(o, z);
+				}
+				else
+					putc(o, Spherical_Harmonics(l, m, th[di], ph[di]));
+			}
+			catch(const std::exception& e)
+			{
+				o.w("THROW");
+			}
+			o.w(";");
 		}
 	}
 	else
